@@ -5,8 +5,10 @@
 //          cancel_io_events / readiness creation / deadline_timer and stream_socket operations carried onto the loop thread /
 //          throwing handlers / stop racing with posts) against one running booster::aio::io_service; exactly-once ledger.
 //   pool   j threads posting / cancelling against cppcms::thread_pool, throwing jobs, stop racing with posts.
-//   fdops  dedicated, deterministic-by-rendezvous scenarios for the ordering defect of deferred descriptor operations
-//          (cancel_io_events queued behind the poll, a later set_io_event executed directly).  Own signatures; run only when asked.
+//   fdops  dedicated, deterministic-by-rendezvous scenarios for the ordering of deferred descriptor operations
+//          (cancel_io_events queued behind the poll, a later set_io_event executed directly, descriptor numbers re-used meanwhile);
+//          regression of the defect repaired by /repo b2c5482.  The loop property searches the same classes with generated programs:
+//          descriptor operations take effect in the order in which the calls were made (calls that overlap in time: either order).
 //
 // Liveness ("the handler is eventually invoked") is never decided by a clock.  The poll primitives of the three reactors are
 // interposed (--wrap=epoll_wait/poll/select): when the loop thread is about to block indefinitely (time-out >= 30 s, i.e. no
@@ -54,6 +56,7 @@ struct Idle {
     std::condition_variable cv;
     int active = 0;                     // harness threads that are running (not blocked waiting for the loop)
     std::vector<std::function<bool()> const *> waiting;
+    std::function<void()> snapshot;     // called (m held) when quiescence is declared: records what is still owed at that moment
     bool armed = false, abort = false, deadlock = false, watchdog = false, loop_exited = false, stopped = false, stop_called = false, deadlock_after_stop = false;
     void reset(int act) { active = act; waiting.clear(); armed = true; abort = deadlock = watchdog = loop_exited = stopped = stop_called = deadlock_after_stop = false; }
 };
@@ -67,7 +70,7 @@ static bool idle_candidate() {
     return false;
 }
 static bool idle_aborting() { std::lock_guard<std::mutex> l(I.m); return I.abort; }
-static void declare_deadlock() { std::lock_guard<std::mutex> l(I.m); if (!I.deadlock) I.deadlock_after_stop = I.stop_called; I.deadlock = I.abort = true; I.cv.notify_all(); }
+static void declare_deadlock() { std::lock_guard<std::mutex> l(I.m); if (!I.deadlock) { I.deadlock_after_stop = I.stop_called; if (I.snapshot) I.snapshot(); } I.deadlock = I.abort = true; I.cv.notify_all(); }
 
 // real: int(int timeout_ms).  Only the loop thread's indefinite waits are sliced.
 template <class Real> static int sliced(Real real, int timeout) {
@@ -136,7 +139,7 @@ struct LCase {
                 s << " " << OPN[o.k];
                 if (o.k == O_TIMER) s << "(" << (o.a == 0 ? "past" : o.a == 1 ? "now" : o.a == 2 ? "+" + std::to_string(o.b) + "ms" : o.a == 3 ? "slot" + std::to_string(o.b) : "far") << ")";
                 else if (o.k == O_ARM) s << "(s" << o.a << (o.b ? ",out" : ",in") << (o.c ? ",loop" : "") << ")";
-                else if (o.k == O_IOCANCEL || o.k == O_READY) s << "(s" << o.a << (o.k == O_READY ? (o.b ? ",out" : ",in") : (o.c ? ",loop" : "")) << ")";
+                else if (o.k == O_IOCANCEL || o.k == O_READY) s << "(s" << o.a << (o.k == O_READY ? (o.b ? ",out" : ",in") : (o.c ? ",loop" : o.b & 1 ? ",check" : "")) << ")";
                 else if (o.k == O_TCANCEL) s << "(P" << o.a << "#" << o.b << ")";
             }
         }
@@ -150,7 +153,7 @@ struct HRec {
     int kind = 0, count = 0, owner = 0;
     int slot = -1, dir = 0;
     booster::ptime deadline; int tid = -1; long arm_tick = 0; bool is_far = false, cancel_claimed = false, deferred_cancel_check = false;
-    long cancels_at_arm = 0; bool exposed = false;
+    long cancels_at_arm = 0; long arm_end = 0;        // arm_end: tick taken after set_io_event returned (0: still inside the call)
     int evalue = 0; size_t nvalue = 0;
     int obj = -1;
     Op op;                      // carrier: the operation to perform on the loop thread
@@ -173,16 +176,16 @@ struct Scn {
     std::vector<int> fds, peer;                            // per slot: the armable end and its peer
     std::vector<std::array<bool, 2>> ready; std::vector<bool> hup;
     std::vector<std::array<int, 2>> busy;                 // outstanding handler id per (slot, dir) or -1
-    std::vector<long> cancels_started, cancel_pending;
+    std::vector<long> cancels_started, cancel_inflight, last_cancel_end, last_done_cancel_start;   // per slot, ticks
     std::vector<std::vector<int>> my_timers;              // per producer: handler ids of timers armed
     std::map<int, std::deque<CancelRec>> tcancels;        // per timer id (deque: stable references)
-    long tick = 1; long raw_cancel_last_end = 0; int raw_cancel_open_n = 0;
+    long tick = 1; long raw_cancel_last_end = 0; int raw_cancel_open_n = 0; long dt_cancel_last_tick = 0;
     std::vector<std::unique_ptr<aio::deadline_timer>> dts; std::vector<int> dt_busy; std::vector<long> dt_cancels;
     std::vector<std::unique_ptr<aio::stream_socket>> sss; std::vector<int> ss_busy, ss_fd, ss_peer; std::vector<long> ss_cancels, ss_written, ss_read;
     std::vector<int> allfds;
     booster::ptime t0;
     pthread_t loop_tid; bool loop_tid_set = false;
-    std::string vsig, vmsg;
+    std::string vsig, vmsg, owed_sig, owed_msg;
     int restarts = 0;
     std::map<std::string, long> cls;
 
@@ -245,7 +248,6 @@ struct Scn {
             std::lock_guard<std::mutex> l(I.m);
             if (!enter(id)) return;
             HRec &h = hs[id]; kind = h.kind; op = h.op;
-            if (kind == K_CMARK) cancel_pending[h.slot]--;
             done();
         }
         if (kind == K_THROW) throw HThrow{id};
@@ -267,7 +269,9 @@ struct Scn {
             } else if (is_canceled(e)) {
                 cls["timer.canceled"]++;
                 if (h.tid < 0) h.deferred_cancel_check = true;       // set_timer_event has not returned yet: checked there
-                else if (!timer_cancel_justified(h)) viol("timer:canceled-without-cancel", hdesc(id) + " received aio_error::canceled although cancel_timer_event was never called with its id after it was armed");
+                else if (timer_cancel_justified(h)) {}
+                else if (dt_cancel_last_tick > h.arm_tick) VR.excl("timer.canceled-possibly-by-deadline_timer-cancel-of-recycled-id");
+                else viol("timer:canceled-without-cancel", hdesc(id) + " received aio_error::canceled although cancel_timer_event was never called with its id after it was armed");
             } else viol("timer:unexpected-error", hdesc(id) + " received " + e.message());
             break;
         case K_DT:
@@ -276,20 +280,21 @@ struct Scn {
             else if (is_canceled(e)) {
                 cls["dt.canceled"]++;
                 if (dt_cancels[h.obj] > h.cancels_at_arm) {}
-                else if (any_raw_cancel_after(h.arm_tick)) VR.excl("dt.canceled-possibly-by-recycled-timer-id");
+                else if (any_raw_cancel_after(h.arm_tick) || dt_cancel_last_tick > h.arm_tick) VR.excl("dt.canceled-possibly-by-recycled-timer-id");
                 else viol("timer:canceled-without-cancel", hdesc(id) + " (deadline_timer) received canceled although cancel() was not called after async_wait()");
             } else viol("timer:unexpected-error", hdesc(id) + " received " + e.message());
             break;
         case K_IO:
-            busy[h.slot][h.dir] = -1;
+            if (busy[h.slot][h.dir] == id) busy[h.slot][h.dir] = -1;
             if (!e) {
                 cls[cancels_started[h.slot] > h.cancels_at_arm ? "io.fired_despite_cancel" : "io.fired"]++;
-                if (!ready[h.slot][h.dir]) viol("io:success-without-readiness", hdesc(id) + " invoked with success although the descriptor was never made " + (h.dir ? "writable" : "readable"));
+                if (!ready[h.slot][h.dir]) viol("io:success-without-readiness", hdesc(id) + " invoked with success although nothing had made the descriptor " + (h.dir ? "writable" : "readable"));
             } else if (is_canceled(e)) {
                 cls["io.canceled"]++;
-                if (cancels_started[h.slot] > h.cancels_at_arm) {}
-                else if (h.exposed) VR.excl("io.armed-inside-deferred-cancel-window");
-                else viol("io:canceled-without-cancel", hdesc(id) + " received aio_error::canceled although cancel_io_events was not called for its descriptor after it was armed");
+                // justified by a cancel_io_events call that had not returned before this handler's set_io_event call began
+                // (calls that overlap may take effect in either order; a cancel that returned earlier must not touch it)
+                if (cancel_inflight[h.slot] > 0 || last_cancel_end[h.slot] > h.arm_tick) {}
+                else viol("io:canceled-without-cancel", hdesc(id) + " received aio_error::canceled although every cancel_io_events call for its descriptor had returned before it was armed");
             } else {
                 cls["io.error"]++;
                 if (!hup[h.slot]) viol("io:unexpected-error", hdesc(id) + " received error '" + e.message() + "' on a healthy descriptor");
@@ -329,34 +334,55 @@ struct Scn {
         srv->post(F0{this, id});
         wait_until([this, id] { return hs[id].count > 0; });
     }
-    void do_arm(int slot, int dir, int p, std::vector<int> &mymarks) {
-        if (!t_is_loop && mymarks[slot] >= 0) {       // own cancel of this descriptor not yet carried out: re-arming now is the known ordering defect
-            int mk = mymarks[slot];
-            if (!wait_until([this, mk] { return hs[mk].count > 0; })) return;
-            mymarks[slot] = -1;
-        }
+    void do_arm(int slot, int dir, int p) {
         int id;
         {
             std::lock_guard<std::mutex> l(I.m);
-            if (busy[slot][dir] != -1) { cls["arm.skipped_busy"]++; return; }
+            int old = busy[slot][dir];
+            if (old != -1) {
+                // one handler per (descriptor, direction) at a time - unless the outstanding one is doomed: its set_io_event had returned
+                // before a cancel_io_events call began, and that cancel call has returned.  Operations take effect in call order, so the
+                // old handler is detached (or has fired) before this registration is stored.
+                HRec &o = hs[old];
+                if (o.arm_end > 0 && last_done_cancel_start[slot] > o.arm_end) cls["arm.after_cancel_of_outstanding"]++;
+                else { cls["arm.skipped_busy"]++; return; }
+            }
             id = newh(K_IO, p); HRec &h = hs[id];
-            h.slot = slot; h.dir = dir; h.cancels_at_arm = cancels_started[slot]; h.exposed = cancel_pending[slot] > 0;
+            h.slot = slot; h.dir = dir; h.cancels_at_arm = cancels_started[slot]; h.arm_tick = tick++;
             busy[slot][dir] = id; cls[dir ? "arm.out" : "arm.in"]++; if (t_is_loop) cls["arm.on_loop"]++;
-            if (h.exposed) cls["arm.exposed"]++;
+            if (cancel_inflight[slot] > 0) cls["arm.during_cancel_call"]++;
+            else if (last_cancel_end[slot] > 0) cls["arm.after_earlier_cancel"]++;
         }
         srv->set_io_event(fds[slot], dir ? aio::io_service::out : aio::io_service::in, FE{this, id});
+        std::lock_guard<std::mutex> l(I.m); hs[id].arm_end = tick++;
     }
-    void do_iocancel(int slot, int p, std::vector<int> *mymarks) {
-        int mk;
+    // check: after the cancel returned, flush twice and require every handler whose registration call had returned before the cancel call
+    // began to have been invoked (the cancel - queued or direct - puts it into the dispatch queue before the first marker runs, the second
+    // marker is queued behind it).
+    void do_iocancel(int slot, int p, bool check) {
+        std::vector<int> owed; long start;
         {
             std::lock_guard<std::mutex> l(I.m);
-            cancels_started[slot]++; cancel_pending[slot]++;
-            mk = newh(K_CMARK, p); hs[mk].slot = slot; cls["iocancel"]++;
+            cancels_started[slot]++; cancel_inflight[slot]++; start = tick++; cls["iocancel"]++;
+            for (int d = 0; d < 2; d++) if (busy[slot][d] != -1 && hs[busy[slot][d]].arm_end > 0) owed.push_back(busy[slot][d]);
             if (busy[slot][0] != -1 || busy[slot][1] != -1) cls["iocancel.with_outstanding"]++;
         }
         srv->cancel_io_events(fds[slot]);
-        srv->post(F0{this, mk});
-        if (mymarks) (*mymarks)[slot] = mk;
+        {
+            std::lock_guard<std::mutex> l(I.m);
+            cancel_inflight[slot]--; last_cancel_end[slot] = tick++;
+            if (start > last_done_cancel_start[slot]) last_done_cancel_start[slot] = start;
+        }
+        if (!check || t_is_loop || owed.empty()) return;
+        for (int i = 0; i < 2; i++) {
+            int id; { std::lock_guard<std::mutex> l(I.m); id = newh(K_MARK, p); }
+            srv->post(F0{this, id});
+            if (!wait_until([this, id] { return hs[id].count > 0; })) return;
+        }
+        std::lock_guard<std::mutex> l(I.m);
+        cls["iocancel.checked"]++;
+        for (int id : owed) if (hs[id].count == 0) viol("io:cancel-misses-registration", hdesc(id) + " was registered (set_io_event had returned) before cancel_io_events was called for its descriptor; the cancel returned and two "
+                                                        "handlers posted afterwards have run, but it has not been invoked");
     }
     void do_ready(int slot, int dir) {
         {
@@ -396,7 +422,7 @@ struct Scn {
         std::lock_guard<std::mutex> l(I.m);
         HRec &h = hs[id]; h.tid = tid;
         if (tid < 0) viol("timer:bad-id", "set_timer_event returned " + std::to_string(tid));
-        else if (h.deferred_cancel_check && !timer_cancel_justified(h)) viol("timer:canceled-without-cancel", hdesc(id) + " received canceled before set_timer_event even returned, no cancel of that id was in flight");
+        else if (h.deferred_cancel_check && !timer_cancel_justified(h) && !(dt_cancel_last_tick > h.arm_tick)) viol("timer:canceled-without-cancel", hdesc(id) + " received canceled before set_timer_event even returned, no cancel of that id was in flight");
         my_timers[p].push_back(id);
     }
     void cancel_timer_handler(int id) {      // id chosen and claimed under the lock by the caller
@@ -434,10 +460,9 @@ struct Scn {
     }
     // executed on the loop thread
     void exec_on_loop(Op const &o, int p) {
-        std::vector<int> nomarks;
         switch (o.k) {
-        case O_ARM: do_arm(o.a % c.nslots(), o.b & 1, p, nomarks); break;
-        case O_IOCANCEL: do_iocancel(o.a % c.nslots(), p, nullptr); break;
+        case O_ARM: do_arm(o.a % c.nslots(), o.b & 1, p); break;
+        case O_IOCANCEL: do_iocancel(o.a % c.nslots(), p, false); break;
         case O_DT: {
             if (!c.ndt) break;
             int i = o.a % c.ndt, id;
@@ -456,7 +481,7 @@ struct Scn {
         case O_DTCANCEL: {
             if (!c.ndt) break;
             int i = o.a % c.ndt;
-            { std::lock_guard<std::mutex> l(I.m); dt_cancels[i]++; cls[dt_busy[i] != -1 ? "dt.cancel_pending" : "dt.cancel_idle"]++; }
+            { std::lock_guard<std::mutex> l(I.m); dt_cancels[i]++; dt_cancel_last_tick = tick++; cls[dt_busy[i] != -1 ? "dt.cancel_pending" : "dt.cancel_idle"]++; }
             dts[i]->cancel();
             break; }
         case O_SSREAD: {
@@ -478,7 +503,7 @@ struct Scn {
         default: break;
         }
     }
-    void exec(Op const &o, int p, std::vector<int> &mymarks) {
+    void exec(Op const &o, int p) {
         switch (o.k) {
         case O_POST: {
             int id;
@@ -493,8 +518,8 @@ struct Scn {
         case O_THROW: { int id; { std::lock_guard<std::mutex> l(I.m); id = newh(K_THROW, p); cls["post.throwing"]++; } srv->post(F0{this, id}); break; }
         case O_TIMER: do_timer(o, p); break;
         case O_TCANCEL: do_tcancel(o, p); break;
-        case O_ARM: if (o.c & 1) post_carrier(o, p); else do_arm(o.a % c.nslots(), o.b & 1, p, mymarks); break;
-        case O_IOCANCEL: if (o.c & 1) post_carrier(o, p); else do_iocancel(o.a % c.nslots(), p, &mymarks); break;
+        case O_ARM: if (o.c & 1) post_carrier(o, p); else do_arm(o.a % c.nslots(), o.b & 1, p); break;
+        case O_IOCANCEL: if (o.c & 1) post_carrier(o, p); else do_iocancel(o.a % c.nslots(), p, (o.b & 1) != 0); break;
         case O_READY: do_ready(o.a % c.nslots(), o.b & 1); break;
         case O_HUP: do_hup(o.a % (c.npairs + c.nblocked)); break;
         case O_FLUSH: { { std::lock_guard<std::mutex> l(I.m); cls["flush"]++; } flush(p); break; }
@@ -514,8 +539,7 @@ struct Scn {
     std::deque<std::mutex> ss_wm; std::vector<std::map<long, std::string>> wq; std::vector<long> wnext;
 
     void producer(int p) {
-        std::vector<int> mymarks(c.nslots(), -1);
-        for (auto &o : c.progs[p]) { if (aborted()) break; exec(o, p, mymarks); }
+        for (auto &o : c.progs[p]) { if (aborted()) break; exec(o, p); }
         std::lock_guard<std::mutex> l(I.m); I.active--; I.cv.notify_all();
     }
     void loop_main() {
@@ -534,7 +558,7 @@ struct Scn {
     bool setup(std::string &why) {
         int ns = c.nslots();
         fds.assign(ns, -1); peer.assign(ns, -1); ready.assign(ns, {{false, true}}); hup.assign(ns, false); busy.assign(ns, {{-1, -1}});
-        cancels_started.assign(ns, 0); cancel_pending.assign(ns, 0);
+        cancels_started.assign(ns, 0); cancel_inflight.assign(ns, 0); last_cancel_end.assign(ns, 0); last_done_cancel_start.assign(ns, 0);
         for (int i = 0; i < c.npairs; i++) {
             int sv[2]; if (mkpair(sv)) { why = "socketpair"; return false; }
             allfds.push_back(sv[0]); allfds.push_back(sv[1]);
@@ -569,7 +593,7 @@ struct Scn {
         sss.clear(); dts.clear(); srv.reset();
         for (int fd : allfds) ::close(fd);
         allfds.clear();
-        std::lock_guard<std::mutex> l(I.m); I.armed = false;
+        std::lock_guard<std::mutex> l(I.m); I.armed = false; I.snapshot = nullptr;
     }
 
     Outcome run() {
@@ -578,7 +602,7 @@ struct Scn {
         std::string want = c.reactor == 1 ? "select" : c.reactor == 2 ? "poll" : "epoll";
         if (srv->reactor_name() != want) { teardown(); return bad("harness:reactor-unavailable", "asked for " + want + ", got " + srv->reactor_name()); }
         int k = (int)c.progs.size();
-        { std::lock_guard<std::mutex> l(I.m); I.reset(k); }
+        { std::lock_guard<std::mutex> l(I.m); I.reset(k); I.snapshot = [this] { for (size_t i = 0; i < hs.size(); i++) if (hs[i].count == 0) { owed_sig = std::string(HKN[hs[i].kind]) + ":never-invoked"; owed_msg = hdesc((int)i); return; } }; }
         t0 = booster::ptime::now();
         std::thread lt([this] { loop_main(); });
         std::vector<std::thread> ps;
@@ -616,11 +640,11 @@ struct Scn {
         int id; { std::lock_guard<std::mutex> l(I.m); id = newh(K_POST, -1); }
         srv->post([this] {
             for (size_t i = 0; i < sss.size(); i++) { { std::lock_guard<std::mutex> l(I.m); ss_cancels[i]++; } sss[i]->cancel(); }
-            for (size_t i = 0; i < dts.size(); i++) { { std::lock_guard<std::mutex> l(I.m); dt_cancels[i]++; } dts[i]->cancel(); }
+            for (size_t i = 0; i < dts.size(); i++) { { std::lock_guard<std::mutex> l(I.m); dt_cancels[i]++; dt_cancel_last_tick = tick++; } dts[i]->cancel(); }
         });
         srv->post(F0{this, id});
         if (!wait_until([this, id] { return hs[id].count > 0; })) return false;
-        for (int s = 0; s < c.nslots(); s++) do_iocancel(s, -1, nullptr);
+        for (int s = 0; s < c.nslots(); s++) do_iocancel(s, -1, false);
         std::vector<int> fars;
         { std::lock_guard<std::mutex> l(I.m); for (size_t i = 0; i < hs.size(); i++) if (hs[i].kind == K_TIMER && hs[i].is_far && !hs[i].cancel_claimed) { hs[i].cancel_claimed = true; fars.push_back((int)i); } }
         for (int f : fars) cancel_timer_handler(f);
@@ -636,9 +660,9 @@ struct Scn {
         if (I.deadlock && I.deadlock_after_stop)
             return bad("stop:loop-not-woken", "stop() returned but run() does not: the loop thread stays blocked in " + srv->reactor_name() + " with nothing ready\n  case: " + c.text());
         if (I.deadlock) {
-            for (size_t i = 0; i < hs.size(); i++) if (hs[i].count == 0)
-                return bad(std::string(HKN[hs[i].kind]) + ":never-invoked", hdesc(i) + " was never invoked: the loop thread is blocked indefinitely in " + srv->reactor_name() +
-                           " with nothing ready while every other thread waits for it (lost wake-up or lost handler)\n  case: " + c.text());
+            if (!owed_sig.empty())
+                return bad(owed_sig, owed_msg + " was not invoked: the loop thread blocked indefinitely in " + srv->reactor_name() +
+                           " with nothing ready while every other thread was waiting for it (lost wake-up or lost handler)\n  case: " + c.text());
             return bad("loop:stalled", "quiescent loop with unsatisfied waiters\n  case: " + c.text());
         }
         if (I.watchdog) { VR.inconclusive++; VR.cls("loop.watchdog"); return ok(); }
@@ -661,18 +685,56 @@ static bool loop_nontrivial(LCase const &c) {
     }
     return cancel || shared;
 }
+// Two threads may die at the same moment (two workers throwing): vr::on_death is not re-entrant across threads, so serialise.
+#include <sys/syscall.h>
+static void serial_signal(int sig) {
+    static std::atomic<long> owner(0);
+    long me = (long)syscall(SYS_gettid), exp = 0;
+    if (!owner.compare_exchange_strong(exp, me) && exp != me) for (;;) pause();
+    vr::on_signal(sig);
+}
+#if defined(__has_feature)
+#if __has_feature(thread_sanitizer)
+#define C17_TSAN 1
+#endif
+#endif
+static void noop_death() {}
+// ThreadSanitizer build: the shared death callback (files, mutexes, allocation) runs inside TSan's report path and has been seen to
+// dead-lock there.  Nothing is done at death time instead: the case being executed is written to the replay directory *before* it
+// runs (note_case) and the report names it as current_case, so lib/verif.py attributes the abnormal exit (rc 79 / signal) to it.
+static void serial_hooks() {
+#ifdef C17_TSAN
+    if (__sanitizer_set_death_callback) __sanitizer_set_death_callback(noop_death);
+    signal(SIGABRT, SIG_DFL); signal(SIGSEGV, SIG_DFL); signal(SIGBUS, SIG_DFL); signal(SIGILL, SIG_DFL); signal(SIGFPE, SIG_DFL);
+#else
+    signal(SIGABRT, serial_signal); signal(SIGSEGV, serial_signal); signal(SIGBUS, serial_signal); signal(SIGILL, serial_signal); signal(SIGFPE, serial_signal);
+#endif
+}
+static std::string g_running_path;
+template <class C> static void note_case(const char *prop, C const &c) {
+    serial_hooks();
+    if (g_replay) return;
+    vr::CaseWriter w; w.w(prop).nl(); c.encode(w);
+    if (g_running_path.empty()) { std::string u = vr::env("VERIF_UNIT", "unit"); for (auto &ch : u) if (ch == '/' || ch == ' ') ch = '_'; g_running_path = VR.replay_dir() + "/crash-" + u + "-running.case"; }
+    vr::write_file(g_running_path, w.str());
+    if (VR.current_case != g_running_path) { VR.current_case = g_running_path; }
+    VR.flush();
+}
+
 static Outcome p_loop(LCase const &c) {
+    note_case("loop", c);
     VR.eval();
     { vr::CaseWriter w; c.encode(w); if (loop_nontrivial(c)) VR.nontrivial(vr::fnv(w.str(), 171)); }
     VR.cls(std::string("loop.case.") + (c.fin ? "stop_race" : "drain")); VR.cls("loop.case.producers=" + std::to_string(c.progs.size()));
+    VR.cls(std::string("loop.case.reactor=") + (c.reactor == 1 ? "select" : c.reactor == 2 ? "poll" : "epoll"));
     if (VR.want_sample()) VR.sample("loop: " + c.text().substr(0, 600));
-    int reps = g_replay ? (int)vr::envl("C17_REPLAY_REPS", 40) : (int)vr::envl("C17_REPS", 1);
+    int reps = g_replay ? (int)vr::envl("C17_REPLAY_REPS", 120) : (int)vr::envl("C17_REPS", 1);
     for (int i = 0; i < reps; i++) { Scn s(c); Outcome o = s.run(); if (!o.ok()) return o; }
     return ok();
 }
 static rc::Gen<LCase> gen_loop(int reactor) {
     return rc::gen::exec([reactor]() {
-        LCase c; c.reactor = reactor;
+        LCase c; c.reactor = reactor ? reactor : *vr::range<int>(1, 4);
         c.fin = *rc::gen::weightedElement<int>({{5, 0}, {1, 1}});
         int k = *rc::gen::weightedElement<int>({{2, 1}, {3, 2}, {3, 3}, {2, 4}, {1, 5}, {1, 6}});
         c.npairs = *vr::range<int>(1, 3); c.nblocked = *vr::range<int>(0, 2); c.nstream = *vr::range<int>(0, 2); c.ndt = *vr::range<int>(0, 3);
@@ -689,7 +751,7 @@ static rc::Gen<LCase> gen_loop(int reactor) {
                 case O_TIMER: o.a = *rc::gen::weightedElement<int>({{2, 0}, {2, 1}, {4, 2}, {3, 3}, {2, 4}}); o.b = o.a == 3 ? *vr::range<int>(0, 4) : *vr::range<int>(1, 13); break;
                 case O_TCANCEL: o.a = *rc::gen::weightedElement<int>({{3, p}, {1, *vr::range<int>(0, k)}}); o.b = *vr::range<int>(0, 16); break;
                 case O_ARM: o.a = *vr::range<int>(0, 6); o.b = *vr::range<int>(0, 2); o.c = *rc::gen::weightedElement<int>({{3, 0}, {1, 1}}); break;
-                case O_IOCANCEL: o.a = *vr::range<int>(0, 6); o.c = *rc::gen::weightedElement<int>({{3, 0}, {1, 1}}); break;
+                case O_IOCANCEL: o.a = *vr::range<int>(0, 6); o.b = *vr::range<int>(0, 2); o.c = *rc::gen::weightedElement<int>({{3, 0}, {1, 1}}); break;
                 case O_READY: o.a = *vr::range<int>(0, 6); o.b = *vr::range<int>(0, 2); break;
                 case O_HUP: o.a = *vr::range<int>(0, 4); break;
                 case O_YIELD: o.a = *vr::range<int>(1, 40); break;
@@ -838,13 +900,14 @@ struct PScn {
     }
 };
 static Outcome p_pool(PCase const &c) {
+    note_case("pool", c);
     VR.eval();
     bool nt = c.fin == 1 || c.progs.size() > 1;
     for (auto &p : c.progs) for (auto &o : p) if (o.k == 1 || (o.k == 0 && (o.a == 1 || o.a == 2))) nt = true;
     { vr::CaseWriter w; c.encode(w); if (nt) VR.nontrivial(vr::fnv(w.str(), 172)); }
     VR.cls(std::string("pool.case.") + (c.fin ? "stop_race" : "drain")); VR.cls("pool.case.workers=" + std::to_string(c.workers));
     if (VR.want_sample()) VR.sample("pool: " + c.text().substr(0, 400));
-    int reps = g_replay ? (int)vr::envl("C17_REPLAY_REPS", 40) : (int)vr::envl("C17_REPS", 1);
+    int reps = g_replay ? (int)vr::envl("C17_REPLAY_REPS", 120) : (int)vr::envl("C17_REPS", 1);
     for (int i = 0; i < reps; i++) { PScn s(c); Outcome o = s.run(); if (!o.ok()) return o; }
     return ok();
 }
@@ -896,7 +959,7 @@ struct FScn {
     std::pair<int, int> st(int id) { std::lock_guard<std::mutex> l(m); return got[id]; }
 };
 static Outcome p_fdops(FCase const &c) {
-    VR.eval(); VR.nontrivial(vr::fnv("fdops", 173 + c.reactor * 10 + c.variant));
+    VR.eval(); VR.nontrivial(vr::fnv(std::string("fdops"), 173 + c.reactor * 10 + c.variant));
     FScn s(c.reactor);
     std::thread lt([&] { s.srv.run(); });
     Outcome res = ok(); int hit = 0, deferred_seen = 0;
@@ -906,20 +969,25 @@ static Outcome p_fdops(FCase const &c) {
         if (::socketpair(AF_UNIX, SOCK_STREAM, 0, sv)) break;
         int fd = sv[0], h1 = next++, h2 = next++;
         bool wd = false;
-        if (c.variant == 0 || c.variant == 2) {
+        if (c.variant == 0 || c.variant == 2 || c.variant == 3) {
             // arm h1, let the loop go idle, then: [slow handler] cancel (queued behind the poll) ; re-arm h2 (executed directly) -> the queued cancel hits h2
             s.srv.set_io_event(fd, aio::io_service::in, s.h(h1));
             wd |= !s.flush(); wd |= !s.flush();
             s.post_gate();
             s.srv.cancel_io_events(fd);
             wd |= !s.wait_gate();
-            if (c.variant == 2) { if (::socketpair(AF_UNIX, SOCK_STREAM, 0, sv2)) { s.release(); break; } ::dup2(sv2[0], fd); }   // the number now names another socket (close + accept)
+            if (c.variant == 2) { if (::socketpair(AF_UNIX, SOCK_STREAM, 0, sv2)) { s.release(); break; } ::dup2(sv2[0], fd); }   // the number now names another socket
+            if (c.variant == 3) {       // close, then a new socket pair: the kernel hands out the lowest free number, i.e. the one just closed (checked)
+                ::close(fd); sv[0] = -1;
+                if (::socketpair(AF_UNIX, SOCK_STREAM, 0, sv2)) { s.release(); break; }
+                if (sv2[0] != fd && sv2[1] != fd) { VR.cls("fdops.variant3.number_not_reused"); s.release(); s.flush(); s.flush(); ::close(sv[1]); ::close(sv2[0]); ::close(sv2[1]); continue; }
+            }
             s.srv.set_io_event(fd, aio::io_service::in, s.h(h2));
             s.release();
             wd |= !s.flush(); wd |= !s.flush(); wd |= !s.flush();
             auto a = s.st(h1), b = s.st(h2);
             if (!wd) {
-                if (b.first != 0) { hit++; res = bad("io:deferred-cancel-hits-later-registration", std::string("cancel_io_events(fd) returned, then set_io_event(fd,in,h2) was called") + (c.variant == 2 ? " for a new socket that received the same descriptor number" : "") +
+                if (b.first != 0) { hit++; res = bad("io:deferred-cancel-hits-later-registration", std::string("cancel_io_events(fd) returned, then set_io_event(fd,in,h2) was called") + (c.variant >= 2 ? " for a new socket that received the same descriptor number" : "") +
                                      ": h2 was invoked with " + (b.second == 2 ? "aio_error::canceled" : "a result") + " although nothing cancelled it and the descriptor is not readable; h1 invoked " + std::to_string(a.first) + " time(s) (round " + std::to_string(round) + ")"); }
                 else if (a.first != 1 || a.second != 2) res = bad("io:cancelled-handler-not-invoked", "h1 count=" + std::to_string(a.first) + " status=" + std::to_string(a.second));
             }
@@ -938,7 +1006,8 @@ static Outcome p_fdops(FCase const &c) {
         }
         (void)deferred_seen;
         s.srv.cancel_io_events(fd); s.flush(); s.flush();
-        ::close(sv[0]); ::close(sv[1]); if (sv2[0] >= 0) { ::close(sv2[0]); ::close(sv2[1]); }
+        if (sv[0] >= 0) ::close(sv[0]);
+        ::close(sv[1]); if (sv2[0] >= 0) { if (sv2[0] != sv[0]) ::close(sv2[0]); ::close(sv2[1]); }
         if (wd) { VR.inconclusive++; break; }
     }
     s.srv.stop(); lt.join();
@@ -961,9 +1030,11 @@ int main(int argc, char **argv) {
     if (!g_replay && mode == "fdops") {
         vr::install_crash_hooks();
         bool good = true;
-        for (int r = 1; r <= 3; r++) for (int v = 0; v < 3; v++) { FCase c; c.reactor = r; c.variant = v; c.rounds = (int)vr::envl("C17_FDOPS_ROUNDS", 200); good = vr::run_direct(v == 1 ? "fdops-queued" : "fdops-rearm", c, p_fdops) && good; }
+        for (int r = 1; r <= 3; r++) for (int v = 0; v < 4; v++) { FCase c; c.reactor = r; c.variant = v; c.rounds = (int)vr::envl("C17_FDOPS_ROUNDS", 200); good = vr::run_direct(v == 1 ? "fdops-queued" : "fdops-rearm", c, p_fdops) && good; }
         VR.finish();
         return good ? 0 : 1;
     }
-    return vr::rc_main(argc, argv, props);
+    int rc = vr::rc_main(argc, argv, props);
+    if (!g_running_path.empty()) ::unlink(g_running_path.c_str());     // ended normally: nothing was running when the process ended
+    return rc;
 }
